@@ -408,6 +408,39 @@ func checkC05(w *World, r *Report) {
 			edges = append(edges, nonPositiveEdges(op.fn, match.amount)...)
 			ok := MustPass(op.fn, edges, s.Instr.Block()) && instrDominatesOrAfter(match.inF.Instr, s.Instr, op.fn)
 			r.Check(ok, "C05.pair", construct+": persist only after the transfer succeeded", w.Pos(s.Instr.Pos()), "dominated by the nil edge of the transfer's error (or the amount is not positive)", "pools can be persisted although the transfer failed or was skipped")
+			// what is persisted is the record that was modified: same record value, not re-assigned after the modification
+			args := s.Args()
+			pv := args[len(args)-1]
+			okSame := false
+			var rec ssa.Value = pv // the record: an SSA struct value, or the local it is loaded from
+			if u, isLoad := pv.(*ssa.UnOp); isLoad {
+				if a, isAlloc := u.X.(*ssa.Alloc); isAlloc {
+					rec = a
+				}
+			}
+			reached := false
+			if op.fresh {
+				// a fresh pool must have been appended to the record's pool list
+				for _, fs2 := range FieldStores(op.fn) {
+					if fs2.Field == "VestingPools" && derefRoot(fs2.FA.X) == rec {
+						if w.Tracer().Origins(fs2.Store.Val).Values[op.store.FA.X] {
+							reached = true
+						}
+					}
+				}
+			} else {
+				reached = w.Tracer().Origins(op.store.FA.X).Values[rec]
+			}
+			reassigned := false
+			if a, isAlloc := rec.(*ssa.Alloc); isAlloc {
+				for _, ref := range *a.Referrers() {
+					if st, isSt := ref.(*ssa.Store); isSt && st.Addr == ssa.Value(a) && instrReachableFrom(op.store.Store, st) {
+						reassigned = true // a whole-record assignment that can execute after the ledger change
+					}
+				}
+			}
+			okSame = reached && !reassigned
+			r.Check(okSame, "C05.pair", construct+": the record persisted is the one that was modified", w.Pos(s.Instr.Pos()), "same local record, assigned only before the ledger change", "the record written back is not (or no longer) the one whose ledger field was changed: coins move but the books do not")
 		}
 		if np == 0 {
 			r.Bad("C05.pair", construct+": persisted", pos, "ledger change is never persisted in this operation")
@@ -781,4 +814,41 @@ func c05locked(w *World, r *Report) {
 		}
 		r.Check(good, "C05.locked", "VestingPool.Validate rejects negative "+f, w.Pos(vv.Pos()), "IsNegative => error", "genesis validation accepts a pool with a negative "+f)
 	}
+}
+
+// instrReachableFrom: b can execute after a on some path.
+func instrReachableFrom(a, b ssa.Instruction) bool {
+	if a.Block() == b.Block() {
+		for _, in := range a.Block().Instrs {
+			if in == a {
+				// b later in the same block?
+				after := false
+				for _, x := range a.Block().Instrs {
+					if x == a {
+						after = true
+						continue
+					}
+					if after && x == b {
+						return true
+					}
+				}
+				break
+			}
+		}
+	}
+	seen := map[*ssa.BasicBlock]bool{}
+	stack := append([]*ssa.BasicBlock{}, a.Block().Succs...)
+	for len(stack) > 0 {
+		x := stack[len(stack)-1]
+		stack = stack[:len(stack)-1]
+		if seen[x] {
+			continue
+		}
+		seen[x] = true
+		if x == b.Block() {
+			return true
+		}
+		stack = append(stack, x.Succs...)
+	}
+	return false
 }
